@@ -14,7 +14,7 @@ func init() {
 		id: "C01",
 		li: levelInfo{
 			Level:       "other",
-			Explanation: "Static necessary conditions of in-order, exactly-one replies. R1 (who-may-touch): each of the three FIFO queues (session.processingReqs, client.pendingReqs, client.processingReqs) has the expected producer and consumer functions only; each encoder/decoder is used by one loop function; each loop function is started once, outside any loop. R2 (per-iteration pairing on the CFG): downstream reader - every decoded value is wrapped, dispatched and enqueued exactly once before the next decode; downstream writer - every dequeued request is waited for and its own response encoded exactly once before the next dequeue; backend writer - unless the filter stopped it, a dequeued request is encoded once and then handed to the sent-queue (or the function exits) before the next dequeue - a request already on the wire always gets its FIFO entry; backend reader - one decode and one dequeue per iteration, both given to the reply dispatcher. R3: split/assemble agreement - child k is built from argument f(k) (f from the reference: k+1 for MGET and the sum commands, 2k+1/2k+2 for MSET), every iteration adds exactly one child, reply element i is children[i]'s response, the sum accumulates every child's integer. R4 (taint): no client- or backend-supplied text reaches the text of an error/simple-string reply line unless it is a key of a constant table, quoted, or stripped of CR LF. R5: no alias of the read buffer escapes into a queued request (shared with C10.R2). R6 (flush gate, shared with C02.R8): every iteration of a writer loop passes the `queue empty => Flush` test before it blocks on the queue again, so a reply that was encoded is also on the wire. Ordering under real schedules and cross-connection isolation as a whole are not decided. R7 (shared with C02.R3-R5): at the end of a backend connection the terminal drain covers every queue, runs after the reader returned and the writer was joined, and an enqueue that can race with it re-tests the quit latch. R8 (shared with C02.R1): every request is completed exactly once on every path (a request answered by a filter and still queued for a backend reply shifts all later replies of that connection). R9 (shared with C10.R11): the slab cursor only advances or takes a fresh chunk. R10 (shared with C10.R12): the line reader's returned line ends at start-of-window + index + 1.",
+			Explanation: "Static necessary conditions of in-order, exactly-one replies. R1 (who-may-touch): each of the three FIFO queues (session.processingReqs, client.pendingReqs, client.processingReqs) has the expected producer and consumer functions only; each encoder/decoder is used by one loop function; each loop function is started once, outside any loop. R2 (per-iteration pairing on the CFG): downstream reader - every decoded value is wrapped, dispatched and enqueued exactly once before the next decode; downstream writer - every dequeued request is waited for and its own response encoded exactly once before the next dequeue; backend writer - unless the filter stopped it, a dequeued request is encoded once and then handed to the sent-queue (or the function exits) before the next dequeue - a request already on the wire always gets its FIFO entry; backend reader - one decode and one dequeue per iteration, both given to the reply dispatcher. R3: split/assemble agreement - child k is built from argument f(k) (f from the reference: k+1 for MGET and the sum commands, 2k+1/2k+2 for MSET), every iteration adds exactly one child, reply element i is children[i]'s response, the sum accumulates every child's integer. R4 (taint): no client- or backend-supplied text reaches the text of an error/simple-string reply line unless it is a key of a constant table, quoted, or stripped of CR LF. R5: no alias of the read buffer escapes into a queued request (shared with C10.R2). R6 (flush gate, shared with C02.R8): every iteration of a writer loop passes the `queue empty => Flush` test before it blocks on the queue again, so a reply that was encoded is also on the wire. Ordering under real schedules and cross-connection isolation as a whole are not decided. R7 (shared with C02.R3-R5): at the end of a backend connection the terminal drain covers every queue, runs after the reader returned and the writer was joined, and an enqueue that can race with it re-tests the quit latch. R8 (shared with C02.R1): every request is completed exactly once on every path (a request answered by a filter and still queued for a backend reply shifts all later replies of that connection). R9 (shared with C10.R11): the slab cursor only advances or takes a fresh chunk. R10 (shared with C10.R12): the line reader's returned line ends at start-of-window + index + 1. R11 (shared with C13.R11/C19.R11): a locally built reply is copied out of a pooled buffer before the buffer goes back to the pool.",
 			TrustedBase: []string{"go/ssa", "VTA call graph"},
 		},
 		run: checkC01,
